@@ -863,6 +863,13 @@ Proof.
   unfold vote_sig_valid in Hs. rewrite H1, H2, H3 in Hs. exact Hs.
 Qed.
 
+Lemma good_addr done i v val :
+  good done i v -> nth_error vals i = Some val -> v_addr v = val_addr val.
+Proof.
+  intros [_ [Hi Hv]] Hn. destruct (valid_vote_spec i v Hi Hv) as [_ [_ [_ [_ [val' [Hn' [Ha _]]]]]]].
+  assert (val' = val) by congruence. subst val'. exact Ha.
+Qed.
+
 Lemma sig_valid_nonempty c a t hh r b tm sg : sig_valid c a t hh r b tm sg = true -> s_empty sg = false.
 Proof.
   unfold sig_valid. rewrite !andb_true_iff. intros [[[[[[[[H _] _] _] _] _] _] _] _].
@@ -920,7 +927,7 @@ Proof.
   { intros i val cs _ Hcs. rewrite nth_error_map in Hcs.
     destruct (nth_error (vs_votes s) i) as [o|]; [|discriminate]. injection Hcs as <-. eauto. }
   assert (Htally : tally chain ht rd b b vals (map (commitsig_of b) (vs_votes s)) 0 =
-                   Some (0 + signed_power chain ht rd b vals (map (commitsig_of b) (vs_votes s)))).
+                   TOk (0 + signed_power chain ht rd b vals (map (commitsig_of b) (vs_votes s)))).
   { apply tally_total; auto; try lia.
     - exact Hnonneg.
     - destruct Hwf as [_ Hc]. pose proof cap_fits as [_ Hcap]. lia.
@@ -931,8 +938,9 @@ Proof.
       pose proof (good_sig _ _ _ _ Hg Hv) as Hs. rewrite Hty in Hs.
       cbn [commitsig_of]. destruct (bid_is_complete (v_bid v)) eqn:Ec.
       + destruct (bid_eqb (v_bid v) b) eqn:Eb; [|left; reflexivity].
-        right; left. apply bid_eqb_eq in Eb. rewrite <- Eb. cbn [cs_flag cs_time cs_sig]. split; [reflexivity|exact Hs].
-      + right; right. cbn [cs_flag cs_time cs_sig]. split; [reflexivity|split; [reflexivity|]].
+        right; left. apply bid_eqb_eq in Eb. rewrite <- Eb. cbn [cs_flag cs_addr cs_time cs_sig].
+        split; [reflexivity|split; [exact (good_addr _ _ _ _ Hg Hv)|exact Hs]].
+      + right; right. cbn [cs_flag cs_addr cs_time cs_sig]. split; [reflexivity|split; [reflexivity|split; [exact (good_addr _ _ _ _ Hg Hv)|]]].
         destruct Hg as [Hoff _]. destruct (Hwire v Hoff) as [Hz|Hc']; [|congruence].
         apply bid_is_zero_eq in Hz. rewrite <- Hz. exact Hs. }
   (* the signatures for b weigh at least as much as the quorum entry *)
